@@ -120,6 +120,9 @@ ohaszero = z3.Function('ohaszero', OSeq, Bool)
 onormal = z3.Function('onormal', OSeq, Bool)          # every constraint: coefficients >= 0, op in {>=, ==}
 
 
+liftcls = z3.Function('liftcls', Int, Int, Int, Int, CSeq)   # [[-(yo+i), s*(xo+i)] for i in 1..k]: selector i picks copy i with sign s
+liftsem = z3.Function('liftsem', Asg, Int, Int, Bool, Bool)  # (a, v, k, pos): every true selector of variable v selects a copy whose value is pos
+yblock = z3.Function('yblock', Int, Int, ISeq)               # the k selector variables of original variable v (lifting layout)
 implchain = z3.Function('implchain', ISeq, CSeq)       # [[-X[i-1], X[i]] for i in 1..len-1]: the implication chain X[0] -> X[1] -> ...
 ishift = z3.Function('ishift', ISeq, Int, ISeq)        # every element plus a constant  (variables x(p) = offset + p of a block)
 preds = z3.Function('preds', Int, Int, ISeq)           # predecessors of vertex v in the abstract digraph gid
@@ -166,7 +169,7 @@ FUNCS = dict(tlen=tlen, tcoef=tcoef, tlit=tlit, tunit=tunit, tnegc=tnegc, tset=t
              ilen=ilen, iget=iget, inil=inil, isnoc=isnoc, iapp=iapp, ineg=ineg, haszero=haszero,
              maxof=maxof, minof=minof, maxabs=maxabs, lit_true=lit_true, count=count, ctrue=ctrue,
              clen=clen, cget=cget, cnil=cnil, csnoc=csnoc, capp=capp, ctake=ctake, combs=combs, sat=sat,
-             cmaxabs=cmaxabs, pow2=pow2, chaszero=chaszero, psum=psum, card2=card2, isperm=isperm, sortedperm=sortedperm, invperm=invperm, imapsub=imapsub, zpos=zpos, mpos=mpos, rnbrs=rnbrs, apseq=apseq, negunits=negunits, idxcombs=idxcombs, iflip1=iflip1, iflips=iflips, neqprefix=neqprefix, signvecs=signvecs, sprod=sprod, smul=smul, pfilter=pfilter, implchain=implchain, ishift=ishift, preds=preds, outdeg=outdeg, gtopo=gtopo, gsinkok=gsinkok,
+             cmaxabs=cmaxabs, pow2=pow2, chaszero=chaszero, psum=psum, card2=card2, isperm=isperm, sortedperm=sortedperm, invperm=invperm, imapsub=imapsub, zpos=zpos, mpos=mpos, rnbrs=rnbrs, apseq=apseq, negunits=negunits, idxcombs=idxcombs, iflip1=iflip1, iflips=iflips, neqprefix=neqprefix, signvecs=signvecs, sprod=sprod, smul=smul, pfilter=pfilter, liftcls=liftcls, liftsem=liftsem, yblock=yblock, implchain=implchain, ishift=ishift, preds=preds, outdeg=outdeg, gtopo=gtopo, gsinkok=gsinkok,
              ev3=ev3, dropc=dropc, dterms=dterms, dcons=dcons, tevent=tevent, cevent=cevent, dlits=dlits, dclauses=dclauses, levent=levent, gad=gad, cdist_tab=cdist_tab, cdist=cdist, cdistall=cdistall, cind=cind, satind=satind, aind=aind)
 
 
@@ -320,6 +323,13 @@ def _on_terms(terms_by_decl):
     for (s, k) in terms_by_decl.get('combs', []):
         out.append(cmaxabs(combs(s, k)) <= maxabs(s))
         out.append(z3.Implies(z3.Not(haszero(s)), z3.Not(chaszero(combs(s, k)))))
+    for (v, k) in terms_by_decl.get('yblock', []):
+        out.append(yblock(v, k) == apseq((v - 1) * 2 * k + k + 1, k))                     # definition (lifting layout)
+    for (xo, yo, k, sg) in terms_by_decl.get('liftcls', []):
+        t = liftcls(xo, yo, k, sg)
+        # Subst.lean liftcls_*: k two-literal clauses over the two blocks
+        out += [z3.Implies(k >= 0, clen(t) == k),
+                z3.Implies(z3.And(xo >= 0, yo >= 0, z3.Or(sg == 1, sg == -1)), z3.And(z3.Not(chaszero(t)), cmaxabs(t) <= zmax(xo, yo) + zmax(k, 0)))]
     for (X,) in terms_by_decl.get('implchain', []):
         # Seq.lean implchain_*: n-1 two-literal clauses over the literals of X
         out += [z3.Implies(ilen(X) >= 1, clen(implchain(X)) == ilen(X) - 1), cmaxabs(implchain(X)) <= maxabs(X),
@@ -703,6 +713,17 @@ def _sem_on_terms(asgs, terms_by_decl):
             if z3.is_app(b0) and b0.decl().name() == 'aind' and b0.arg(0).eq(a):
                 # definition of the induced assignment on variables
                 out.append(z3.Implies(l > 0, lit_true(b0, l) == sat(a, gad(b0.arg(1), l))))
+        lsems = [x for x in terms_by_decl.get('liftsem', []) if x[0].eq(a)]
+        for (xo, yo, k, sg) in terms_by_decl.get('liftcls', []):
+            for (_a, v, k2, pos) in lsems:
+                # Subst.lean sat_liftcls: the clauses (selector i false or copy i has the sign) hold iff every true selector
+                # selects a copy with that value - for the blocks of variable v in the lifting layout
+                out.append(z3.Implies(z3.And(k2 == k, k >= 1, v >= 1, xo == (v - 1) * 2 * k, yo == xo + k, z3.Or(sg == 1, sg == -1), pos == (sg == 1)),
+                                      sat(a, liftcls(xo, yo, k, sg)) == liftsem(a, v, k, pos)))
+        for (_a, v, k, pos) in lsems:
+            # Subst.lean liftsem_flip: with exactly one selector true, "the selected copy is true" and "is false" are complementary
+            out.append(z3.Implies(z3.And(k >= 1, v >= 1, count(a, yblock(v, k)) == 1),
+                                  liftsem(a, v, k, z3.BoolVal(True)) == z3.Not(liftsem(a, v, k, z3.BoolVal(False)))))
         for (X,) in terms_by_decl.get('implchain', []):
             # Subst.lean allequal_cycle: the chain X[0] -> ... -> X[n-1] closed by X[n-1] -> X[0] holds iff all literals agree
             n = ilen(X)
@@ -776,6 +797,30 @@ def _has_bound(e):
     return False
 
 
+def _quantifier_instances(exprs, by_decl):
+    """instances of the hypotheses' own quantified facts (contracts of function values, definitions) at the ground terms
+    that match their single one-variable pattern f(.., X, ..): logically redundant (z3 instantiates them itself), but it
+    makes the resulting terms visible to the ground lemma schemas of the next round"""
+    out = []
+    for q in exprs:
+        if not (z3.is_quantifier(q) and q.is_forall() and q.num_vars() == 1 and q.num_patterns() == 1):
+            continue
+        pat = q.pattern(0)
+        if pat.num_args() != 1:
+            continue
+        p = pat.arg(0)
+        if not z3.is_app(p) or p.decl().name() not in by_decl:
+            continue
+        pos = [i for i in range(p.num_args()) if z3.is_var(p.arg(i))]
+        if len(pos) != 1 or any(_has_bound(p.arg(i)) for i in range(p.num_args()) if i != pos[0]):
+            continue
+        for args in by_decl[p.decl().name()]:
+            if len(args) == p.num_args() and all(args[i].eq(p.arg(i)) for i in range(len(args)) if i != pos[0]) \
+                    and args[pos[0]].sort() == q.var_sort(0):
+                out.append(z3.substitute_vars(q.body(), args[pos[0]]))
+    return out
+
+
 def instances(exprs, rounds=3):
     """ground lemma instances for the VC made of `exprs` (hypotheses + goal)"""
     out = []
@@ -784,6 +829,7 @@ def instances(exprs, rounds=3):
     for _ in range(rounds):
         by_sort, by_decl = _collect(cur + out)
         new = []
+        new += _quantifier_instances(cur, by_decl)
         new += _on_terms(by_decl)
         new += _sem_on_terms(by_sort['Asg'], by_decl)
         new += _opb_sem(by_sort['Asg'], by_decl, by_sort)
